@@ -868,6 +868,9 @@ func (e *AnimEncoder) encodeSubFrame(currCanvas *image.NRGBA, durMS int) error {
 	}
 
 	subImgNone := extractSubImage(currCanvas, rectNone)
+	if blendNone == BlendAlpha {
+		keepCanvasWhereNotOpaque(subImgNone, currCanvas, rectNone)
+	}
 	bsNone, err := e.encodeFrame(subImgNone, e.opts.Lossless, e.opts.Quality)
 	if err != nil {
 		return fmt.Errorf("animation: encoding sub-frame (dispose-none): %w", err)
@@ -900,6 +903,9 @@ func (e *AnimEncoder) encodeSubFrame(currCanvas *image.NRGBA, durMS int) error {
 	}
 
 	subImgBG := extractSubImage(currCanvas, rectBG)
+	if blendBG == BlendAlpha {
+		keepCanvasWhereNotOpaque(subImgBG, currCanvas, rectBG)
+	}
 	bsBG, err = e.encodeFrame(subImgBG, e.opts.Lossless, e.opts.Quality)
 	if err != nil {
 		// If encoding the BG candidate fails, fall through with DISPOSE_NONE.
@@ -1124,6 +1130,22 @@ func extractSubImage(src *image.NRGBA, rect image.Rectangle) *image.NRGBA {
 		copy(dst.Pix[dstOff:dstOff+w*4], src.Pix[srcOff:srcOff+w*4])
 	}
 	return dst
+}
+
+// keepCanvasWhereNotOpaque prepares a sub-frame that will be alpha-blended.
+// The blending predicates accept a non-opaque target pixel only when the canvas
+// already holds it. Blending such a pixel over itself would not reproduce it
+// (a semi-transparent pixel composited onto itself gains alpha), so the frame
+// carries a fully transparent pixel there instead, which makes the decoder keep
+// the canvas pixel. This is what libwebp's IncreaseTransparency does.
+func keepCanvasWhereNotOpaque(sub, target *image.NRGBA, rect image.Rectangle) {
+	for y := 0; y < rect.Dy(); y++ {
+		for x := 0; x < rect.Dx(); x++ {
+			if target.NRGBAAt(rect.Min.X+x, rect.Min.Y+y).A != 0xFF {
+				sub.SetNRGBA(x, y, color.NRGBA{})
+			}
+		}
+	}
 }
 
 // cloneNRGBA creates a deep copy of an NRGBA image.
